@@ -72,6 +72,7 @@ pub uninterp spec fn raw(m: &RawMap) -> Map<Primitive, Primitive>;
 // usize -> i32 with expect: PANICS when the value does not fit (R8)
 #[verifier::external_body] pub fn usize_to_i32_expect(x: usize) -> (r: i32) requires x <= i32::MAX ensures r == x { unimplemented!() }
 pub fn opt_box(o: Option<Primitive>) -> (r: Option<Box<Primitive>>) ensures o is None ==> r is None, o is Some ==> r == Some(Box::new(o->Some_0)) { match o { Some(p) => Some(Box::new(p)), None => None } }
+pub fn opt_or(o: Option<Primitive>, d: Primitive) -> (r: Primitive) ensures o is Some ==> r == o->Some_0, o is None ==> r == d { match o { Some(p) => p, None => d } }
 pub fn pair_clone(p: &(Primitive, Primitive)) -> (r: (Primitive, Primitive)) ensures r == *p { (p.0.vclone(), p.1.vclone()) }
 // what the heap looks like after fresh cells were added: every cell that existed is untouched
 pub open spec fn cells_kept(v0: Map<int, Seq<Primitive>>, v1: Map<int, Seq<Primitive>>) -> bool { forall|id: int| #[trigger] v0.contains_key(id) ==> v1.contains_key(id) && v1[id] == v0[id] }
@@ -90,14 +91,14 @@ ARMS = {
         // the entry is bound (every alias of this map sees it, no other map changes), the previous value -- or nil -- is the result
         &&& (r is Ok <==> (k is Some && v is Some))
         &&& r is Ok ==> maps(final(heap)) == maps(old(heap)).insert(mid(m), e.insert(k->Some_0, v->Some_0))
-              && r->Ok_0.0 == Some(Primitive::Optional(if e.contains_key(k->Some_0) { Some(Box::new(e[k->Some_0])) } else { None }))
+              && r->Ok_0.0 == Some(if e.contains_key(k->Some_0) { e[k->Some_0] } else { Primitive::Optional(None) })      // the previous value itself, or nil (D91)
         &&& r is Err ==> maps(final(heap)) == maps(old(heap))
         &&& vecs(final(heap)) == vecs(old(heap)) })""", True),
  "MapRemove": ("""requires map_recv(old(heap), arguments@), arguments@.len() >= 2
     ensures ({ let m = &arguments@[0]->Map_0; let k = moved_out(arguments@[1]); let e = entries(old(heap), m);
         &&& (r is Ok <==> k is Some)
         &&& r is Ok ==> maps(final(heap)) == maps(old(heap)).insert(mid(m), e.remove(k->Some_0))
-              && r->Ok_0.0 == Some(Primitive::Optional(if e.contains_key(k->Some_0) { Some(Box::new(e[k->Some_0])) } else { None }))
+              && r->Ok_0.0 == Some(if e.contains_key(k->Some_0) { e[k->Some_0] } else { Primitive::Optional(None) })      // the previous value itself, or nil (D91)
         &&& r is Err ==> maps(final(heap)) == maps(old(heap))
         &&& vecs(final(heap)) == vecs(old(heap)) })""", True),
  "MapClear": ("""requires map_recv(old(heap), arguments@)
@@ -157,6 +158,8 @@ def arm_rules(name):
         *([Rule("R2", "$x . pairs ( ) . into_iter ( ) . map ( | ( $k , $v ) | $$body ) . collect :: < Vec < _ >> ( )", chain, count=1,
                 why="into_iter().map(closure).collect(): the loop that evaluates the closure body for each item in order")] if name == "MapPairs" else []),
         Rule("R1", "map . remove ( $$k ) ? . map ( Box :: new )", "opt_box ( map . remove ( $$k , heap ) ? )", why="Option::map(Box::new); heap threaded"),
+        Rule("R1", "map . remove ( $$k ) ? . unwrap_or ( $$d )", "opt_or ( map . remove ( $$k , heap ) ? , $$d )", why="Option::unwrap_or; heap threaded"),
+        Rule("R1", "maybe_existing_value . unwrap_or ( $$d )", "opt_or ( maybe_existing_value , $$d )", why="Option::unwrap_or"),
         Rule("R1", "maybe_existing_value . map ( Box :: new )", "opt_box ( maybe_existing_value )", why="Option::map(Box::new)"),
         Rule("R10", "map . insert ( $$a ) ?", "map . insert ( $$a , heap ) ?", why="heap threaded"),
         Rule("R10", "map . contains_key ( $$a )", "map . contains_key ( $$a , heap )", why="heap threaded"),
